@@ -106,6 +106,7 @@ class Interp:
         self.methods = dict(methods or {})        # method name -> FunctionDef for `self.m(...)` / `cls.m(...)`
         self.steps = 0
         self.max_steps = max_steps
+        self._yields = []                         # yield collectors of the generator functions being run
 
     # ---- functions ---------------------------------------------------------------------------------------------
     def call_function(self, node, args, kwargs, closure_env=None):
@@ -143,6 +144,17 @@ class Interp:
                 env[x.arg] = self.ev(d, env)
         if isinstance(node, ast.Lambda):
             return self.ev(node.body, env)
+        if _is_generator_function(node):
+            # a generator function: its yields are collected (the body runs to completion under the step bound) and handed
+            # out as an iterator - the functions decided here are pure, so eager production is indistinguishable
+            self._yields.append([])
+            try:
+                self.block(node.body, env)
+            except _Return:
+                pass
+            finally:
+                out = self._yields.pop()
+            return iter(out)
         try:
             self.block(node.body, env)
         except _Return as r:
@@ -414,6 +426,14 @@ class Interp:
                     self.globals[e.id] = v
                     return v
             raise AnalysisError(f"abstract interpreter: unknown name `{e.id}`")
+        if isinstance(e, ast.Yield) and self._yields:
+            self._yields[-1].append(self.ev(e.value, env) if e.value is not None else None)
+            return None
+        if isinstance(e, ast.YieldFrom) and self._yields:
+            for x in self.ev(e.value, env):
+                self.tick()
+                self._yields[-1].append(x)
+            return None
         if isinstance(e, ast.Attribute):
             base = self.ev(e.value, env)
             return self.getattr(base, e.attr, e)
@@ -761,6 +781,18 @@ class Interp:
             if isinstance(c, type) and isinstance(s, type) and issubclass(c, s):
                 return True
         return False
+
+
+def _is_generator_function(node) -> bool:
+    todo = list(node.body)
+    while todo:
+        n = todo.pop()
+        if isinstance(n, (ast.Yield, ast.YieldFrom)):
+            return True
+        if isinstance(n, (ast.FunctionDef, ast.AsyncFunctionDef, ast.Lambda, ast.ClassDef)):
+            continue
+        todo.extend(ast.iter_child_nodes(n))
+    return False
 
 
 def _as_load(t):
